@@ -74,6 +74,9 @@ pub struct Scenario {
     pub calls: Vec<Value>,
     #[serde(default)]
     pub fault: Option<Fault>,
+    /// several injected failures (at most one per call)
+    #[serde(default)]
+    pub faults: Vec<Fault>,
     #[serde(default)]
     pub budget: Option<u64>,
     #[serde(default)]
@@ -846,23 +849,26 @@ pub fn run_scenario(sc: &Scenario, out: &mut dyn Write) {
         _ => "display",
     };
     let (fw, fh, colour) = model_info(&c.model);
-    let fault = sc.fault.clone();
+    let mut faults: Vec<Fault> = sc.faults.clone();
+    if let Some(f) = sc.fault.clone() {
+        faults.push(f);
+    }
     let scn = json!({"kind":kind,
         "cfg":{"model":c.model,"W":fw,"H":fh,"w":c.w.unwrap_or(fw),"h":c.h.unwrap_or(fh),
                "ox":c.ox.unwrap_or(0),"oy":c.oy.unwrap_or(0),"rot":c.rot,"mir":c.mir,"bgr":c.bgr,"inv":c.inv,
                "refv":c.refv,"refh":c.refh,"rst":c.rst,"iface":c.iface,"buf":c.buf,
                "batch":cfg!(feature = "batch"),"profile": if cfg!(debug_assertions) {"dev"} else {"rel"},
                "colour":colour},
-        "fault": match &fault { Some(f) => json!({"call":f.call,"k":f.k,"effect":f.effect}), None => json!({"call":0,"k":0,"effect":false}) },
+        "faults": faults.iter().map(|f| json!({"call":f.call,"k":f.k,"effect":f.effect})).collect::<Vec<_>>(),
         "tag": sc.tag.clone().unwrap_or(json!("")),
         "ncalls": sc.calls.len()});
     let scn_s = serde_json::to_string(&scn).unwrap();
     let _ = writeln!(out, "{{\"k\":\"scn\",\"id\":{},{}", sc.id, &scn_s[1..]);
 
     let fault_for = |i: usize| -> (Option<u32>, bool) {
-        match &fault {
-            Some(f) if f.call == i => (Some(f.k), f.effect),
-            _ => (None, false),
+        match faults.iter().find(|f| f.call == i) {
+            Some(f) => (Some(f.k), f.effect),
+            None => (None, false),
         }
     };
 
